@@ -89,6 +89,8 @@ class Paths:
                 n = [t + tuple(('assign', tg, s.value) for tg in s.targets) for t in n]
             if self.dataflow and isinstance(s, ast.AugAssign):
                 n = [t + (('assign', s.target, ast.BinOp(left=s.target, op=s.op, right=s.value)),) for t in n]
+            if self.dataflow and isinstance(s, ast.Expr) and isinstance(s.value, ast.Yield):
+                n = [t + (('yield', s.value.value),) for t in n]
             res['normal'], res['raise'] = n, r
             if isinstance(s, ast.Assert):
                 res['raise'] = res['raise'] + n
